@@ -56,6 +56,25 @@ def world_dir():
         prefixes=[[["uwrite", "u.pkg/keep", "K\n"], ["uwrite", "u.pkg/sub/more", "M\n"], ["uwrite", "u.out/keep", "K\n"]]])
 
 
+def world_slash():
+    """names with a trailing separator: `redo u.x/` names the user's file u.x (or nothing at all) -- never a licence to
+    run the rule over it"""
+    return World(
+        "owner-slash", {"src": ["0", "1"], "u.x": ["U"]},
+        {"default.x.do": [S(deps=["src"])]},
+        ["g.x"], ["g.x"])
+
+
+def alphabet_slash(w, h):
+    ops = []
+    for n in ("u.x", "g.x"):
+        for sp in (n, n + "/", n + "/."):
+            ops += [["ifchange", [sp]], ["redo", [sp]]]
+    cur = e1prop.cur_values(w, h)
+    ops.append(["edit", "src", "1" if cur["src"] == "0" else "0"])
+    return ops
+
+
 def alphabet_dir(w, h):
     ops = [["ifchange", ["u.pkg"]], ["redo", ["u.pkg"]], ["ifchange", ["g.pkg"]], ["redo", ["g.pkg"]], ["ifchange", ["g.pkg", "u.pkg"]]]
     cur = e1prop.cur_values(w, h)
@@ -159,7 +178,9 @@ def main(tier):
     return e1prop.run_property(
         PID, tier, [(w, alphabet, 3 if tier == "quick" else 4, 2 if tier == "quick" else 3),
                     (world_csum(), alphabet_csum, 3 if tier == "quick" else 5, 2 if tier == "quick" else 3),
-                    (world_dir(), alphabet_dir, 3 if tier == "quick" else 4, 3)], "rv.props.c11", check_names={"owner-dir": "step_check_dir"},
+                    (world_dir(), alphabet_dir, 3 if tier == "quick" else 4, 3),
+                    (world_slash(), alphabet_slash, 3 if tier == "quick" else 4)], "rv.props.c11",
+        check_names={"owner-dir": "step_check_dir", "owner-slash": "step_check_dir"},
         rule="BFS over all histories <= d (quick 3, thorough 4; the checksummed world 5) of {redo-ifchange a.x|t|all, redo a.x|t, edit src, and for each of "
              "the names a.x (matched by default.x.do) and t (t.do): user-edit in place (two contents of different size), "
              "user-replace (new inode), user-restore (an OLDER file of exactly the generated size), user-rm}; an ownership ledger records the last writer of each path; oracle: every "
@@ -174,8 +195,8 @@ def main(tier):
 def replay(path):
     doc = json.load(open(path))
     bindir = common.build_subject()
-    wd = {"owner-csum": world_csum(), "owner-dir": world_dir()}.get(doc.get("world"), world())
-    key, viols, summ = replay_history(wd, doc["history"], step_check_dir if wd.name == "owner-dir" else step_check, bindir=bindir)
+    wd = {"owner-csum": world_csum(), "owner-dir": world_dir(), "owner-slash": world_slash()}.get(doc.get("world"), world())
+    key, viols, summ = replay_history(wd, doc["history"], step_check_dir if wd.name in ("owner-dir", "owner-slash") else step_check, bindir=bindir)
     common.cleanup_scratch()
     bad = [(i, s, d) for i, s, d in viols if s.get("kind") != "__stat__"]
     for s in summ:
